@@ -23,17 +23,29 @@ import (
 )
 
 type vfFront struct {
-	w    *vfWorld
-	l    *vfListener
-	srv  *http.Server
-	addr string
+	w      *vfWorld
+	srv    *http.Server
+	tlsSrv *http.Server
+	addr   string
 }
 
-// front serves h on addr. Requests carrying the header X-Vf-Tls are presented to h as TLS requests.
-func (w *vfWorld) front(h http.Handler, addr string) *vfFront {
+// front starts the proxy's real HTTP (and HTTPS) servers for router r - Server.startHTTPServers, with the
+// http.Server configuration and the middleware chain of the code under test - on the in-memory network at
+// addr ("front:80"; the HTTPS server listens on port 443 of the same host). Two test conveniences are layered
+// over the server's own handler: requests carrying the header X-Vf-Tls are presented to it as TLS requests,
+// and the inbound body is spied on (for the full-duplex finding of C13).
+func (w *vfWorld) front(r *Router, addr string) *vfFront {
+	host, _, err := net.SplitHostPort(addr)
+	if err != nil {
+		panic(err)
+	}
 	f := &vfFront{w: w, addr: addr}
-	f.l = w.net.Listen(addr)
-	wrapped := http.HandlerFunc(func(rw http.ResponseWriter, r *http.Request) {
+	s := NewServer(&Config{Bind: host, HttpPort: 80, HttpsPort: 443}, r)
+	if err := s.startHTTPServers(); err != nil {
+		panic(fmt.Sprintf("startHTTPServers: %v", err))
+	}
+	h := s.httpServer.Handler
+	s.httpServer.Handler = http.HandlerFunc(func(rw http.ResponseWriter, r *http.Request) {
 		if r.Header.Get("X-Vf-Tls") != "" {
 			r.Header.Del("X-Vf-Tls")
 			r.TLS = &tls.ConnectionState{}
@@ -49,8 +61,7 @@ func (w *vfWorld) front(h http.Handler, addr string) *vfFront {
 		}
 		h.ServeHTTP(rw, r)
 	})
-	f.srv = &http.Server{Handler: wrapped}
-	go f.srv.Serve(f.l)
+	f.srv, f.tlsSrv = s.httpServer, s.httpsServer
 	w.mu.Lock()
 	w.fronts = append(w.fronts, f)
 	w.mu.Unlock()
